@@ -692,6 +692,29 @@ func TestC14(t *testing.T) {
 	if resF.Failed {
 		c.Infra("file-name collision generation failed: " + core.Clip(resF.Msg, 400))
 	}
+	// definitions whose names map to one identifier and that differ only in their default values:
+	// two distinct types, each applying its own defaults
+	resD := c.Rapid("defaultcollisions", c.N(16, 200), 6, func(rt *rapid.T) {
+		f := &model.File{RelPath: "prog.json", ID: "https://example.com/prog", Root: &model.Node{Kind: model.KObject}}
+		addCollidingDefs(rt, c, f, "defaultvalue")
+		cs := caseOf(baseConfig(), []string{f.RelPath}, f)
+		o := docOpts(c)
+		var jobs []core.Job
+		for _, mode := range []string{"absent", "present"} {
+			oo := *o
+			oo.NoProps, oo.AllProps = mode == "absent", mode == "present"
+			v, ok := docs.Valid(rt, f.Root, &oo)
+			if !ok {
+				continue
+			}
+			jobs = append(jobs, core.Job{Type: progRoot, Op: "json", Doc: string(v.Marshal()), Expect: "accept", ExpectVal: expJSON(docs.Expect(f.Root, v)), Label: "colliding-defaults:" + mode})
+		}
+		runCases = append(runCases, &RunCase{Case: cs, Jobs: jobs})
+		c.NonTrivial(cs.Files[0].Text)
+	})
+	if resD.Failed {
+		c.Infra("default collision generation failed: " + core.Clip(resD.Msg, 400))
+	}
 	// binding run
 	seenRun := map[string]bool{}
 	for lo := 0; lo < len(runCases); lo += batchSize {
